@@ -453,6 +453,22 @@ fn validate_fields(input: &Struct, data_type_attrs: &DataTypeAttrs, data_type_at
         }
     }
 
+    // an 'into' conversion of a struct with a parameterless #[parent] member is assembled on a default value, statement by statement:
+    // there is no struct expression in which a nested struct could be opened
+    for (data_type_attr, kind) in data_type_attrs_by_kind.iter().filter(|(x, kind)| !kind.is_from() && !kind.is_into_existing() && x.quick_return.is_none() && x.type_hint != TypeHint::Unit) {
+        let ty = &data_type_attr.ty;
+        if input.fields.iter().any(|x| x.attrs.has_parameterless_parent_attr(ty)) {
+            for field in input.fields.iter().filter(|x| x.attrs.child(ty).is_some() && x.attrs.ghost(ty, kind).is_none() && !x.attrs.has_parent_attr(ty)) {
+                errors.insert(format!("Member {}: #[child(...)] cannot be used next to a parameterless #[parent] member in 'into' conversions to {}: the nested struct cannot be built on a default value", field.member_str, ty.path_str), field.member.span());
+            }
+            // a nested struct that only ghosts are addressed to is opened for them (unless a member goes by the same name)
+            let ghost_paths = data_type_attrs.ghosts_attr(ty, kind).into_iter().flat_map(|x| &x.ghost_data).filter(|x| x.child_path.is_some()).map(|x| x.get_child_path_str(None));
+            for path in ghost_paths.filter(|path| !input.fields.iter().any(|x| x.attrs.child(ty).is_none() && x.member_str == *path)) {
+                errors.insert(format!("#[ghosts({}@...)] cannot be used next to a parameterless #[parent] member in 'into' conversions to {}: the nested struct cannot be built on a default value", path, ty.path_str), ty.span);
+            }
+        }
+    }
+
     if !input.named_fields {
         for (trait_attr, kind) in trait_attrs_by_kind(data_type_attrs).iter() {
             let data_type_attr = &trait_attr.core;
